@@ -16,6 +16,7 @@ import IocProofs.Lemmas.M2Examples
 import IocProofs.Lemmas.SemApp
 import IocProofs.Lemmas.ConcStart
 import IocProofs.Lemmas.SemIocRun
+import IocProofs.Lemmas.SemAppOptions
 namespace Ioc.C13
 open Ioc Ioc.M2 Ioc.App
 
@@ -228,6 +229,18 @@ theorem C13_code_ioc_Run (flag : String) (rf : Bool) (ops : List Go.Val) (w : IR
       some (if rf then .tuple [.nil, .str "error"] else .tuple [.ref 0 1, .nil],
             { w with started := w.started ++ [ops ++ w.reg] }) :=
   iocRun_sem flag rf ops w
+
+/-- the options that decide WHERE components go: `SetRegistry` / `SetFactory` replace what the App holds, `SetComponents`
+    registers every component, in the order given, into the registry the App holds when the option runs, `Options` applies the
+    given options once each in the order given -/
+theorem C13_code_component_options (r f : Nat) (cs : List Go.Val) (ops : List Nat) (w : AW) :
+    run aoptPrims Progs.aopt_SetRegistry [.ref r 2, .ref 0 1] w = some (.tuple [], { w with registry := r }) ∧
+    run aoptPrims Progs.aopt_SetFactory [.ref f 3, .ref 0 1] w = some (.tuple [], { w with factory := f }) ∧
+    run aoptPrims Progs.aopt_SetComponents [.list cs, .ref 0 1] w =
+      some (.tuple [], { w with registered := w.registered ++ cs.map (fun c => (w.registry, c)) }) ∧
+    run aoptPrims Progs.aopt_Options [.list (ops.map (fun i => Go.Val.ref i 5)), .ref 0 1] w =
+      some (.tuple [], { w with applied := w.applied ++ ops }) :=
+  ⟨setRegistry_sem r w, setFactory_sem f w, setComponents_sem cs w, options_sem ops w⟩
 
 end entry
 
